@@ -112,10 +112,29 @@ fn term_vars(t: Tid, out: &mut BTreeSet<u32>, seen: &mut HashSet<Tid>) {
         }
     })
 }
+thread_local! {
+    /// memo of formula -> variable set, valid for one arena epoch (hypotheses are re-sliced for every query)
+    static VARS_MEMO: std::cell::RefCell<(u32, HashMap<F, BTreeSet<u32>>)> = std::cell::RefCell::new((0, HashMap::new()));
+}
 pub fn formula_vars(f: &F) -> BTreeSet<u32> {
+    let epoch = sx::with(|a| a.epoch);
+    let hit = VARS_MEMO.with(|m| {
+        let mut m = m.borrow_mut();
+        if m.0 != epoch {
+            m.0 = epoch;
+            m.1.clear();
+        }
+        m.1.get(f).cloned()
+    });
+    if let Some(h) = hit {
+        return h;
+    }
     let mut o = BTreeSet::new();
     let mut s = HashSet::new();
     vars_of(f, &mut o, &mut s);
+    VARS_MEMO.with(|m| {
+        m.borrow_mut().1.insert(f.clone(), o.clone());
+    });
     o
 }
 
